@@ -3,44 +3,238 @@
 -/
 import BumpProof.Gen.SizeConfig
 import BumpProof.Spec.Size
+import BumpProof.Lemmas.SizeSpec
 
 namespace Lemmas
 open Gen.SizeConfig Rs Spec
 
 theorem align_size_eq (up : Bool) (H : Layout) (hH : HeaderOK H) (g : Nat) (hg : g < 2^64) :
-    align_size (mkCfg up H) g = .ok (downAlign g (sizeAlign up H)) := by sorry
+    align_size (mkCfg up H) g = .ok (downAlign g (sizeAlign up H)) := by
+  unfold align_size
+  cases up
+  · simp only [mkCfg, Bool.false_eq_true, ↓reduceIte, Size.max_eq, MIN_CHUNK_ALIGN, bind, Except.bind]
+    rw [Size.down_align_eq (Size.P2.max ⟨4, rfl⟩ (Size.hdr_p2 hH)) (by
+      have := Size.hdr_le hH; rw [Size.natmax, Size.two_pow_64]; omega) hg]
+    rfl
+  · simp only [mkCfg, ↓reduceIte, MIN_CHUNK_ALIGN]
+    rw [Size.down_align_eq ⟨4, rfl⟩ (by decide) hg]
+    rfl
 
 theorem calc_size_from_hint_eq (up : Bool) (H : Layout) (hH : HeaderOK H) (hint : Nat) (hh : hint < 2^64) :
-    calc_size_from_hint (mkCfg up H) hint = .ok (calcSize up H hint) := by sorry
+    calc_size_from_hint (mkCfg up H) hint = .ok (calcSize up H hint) := by
+  have _ := hh
+  unfold calc_size_from_hint
+  delta mkCfg
+  have eh : Nat.max hint (minSize H) = Size.hOf H hint := rfl
+  have es : Nat.max 4096 H.align = Size.stepOf H := rfl
+  simp only [Size.oal_overhead, Size.oal_header hH, Size.max_eq, ASSUMED_PAGE_SIZE, bind, Except.bind, pure,
+    Except.pure, eh, es]
+  -- facts about the raw size
+  have hApos := (Size.hdr_p2 hH).pos
+  have hSpos := (Size.step_p2 hH).pos
+  have hmin := Size.minSize_eq hH
+  have hge := Size.raw_ge hH hint
+  have hsz := hH.ge
+  have hA16 := Size.hdr_ge hH
+  by_cases hr : calcSizeRaw H hint < 2 ^ 64
+  · -- the head computes `some raw` in both branches
+    have e1 : Size.hOf H hint < Size.stepOf H →
+        checked_next_power_of_two (Size.hOf H hint) = some (calcSizeRaw H hint) := by
+      intro hlt
+      unfold checked_next_power_of_two
+      have : npotFrom (Size.hOf H hint) 64 1 = calcSizeRaw H hint := by
+        rw [Size.calcSizeRaw_def, if_pos hlt]; rfl
+      simp only [this]
+      rw [if_pos (by unfold Rs.MAX; omega)]
+    have e2 : ¬ Size.hOf H hint < Size.stepOf H →
+        up_align (Size.hOf H hint) (Size.stepOf H) = .ok (some (calcSizeRaw H hint)) := by
+      intro hlt
+      rw [Size.up_align_eq (Size.step_p2 hH) (Size.step_lt64 hH)]
+      have : upAlign (Size.hOf H hint) (Size.stepOf H) = calcSizeRaw H hint := by
+        rw [Size.calcSizeRaw_def, if_neg hlt]
+      rw [this, if_pos hr]
+    -- the checks and the final adjustment
+    have f1 : rem (calcSizeRaw H hint) H.align = .ok 0 := by
+      rw [Size.rem_ok (by omega), Nat.mod_eq_zero_of_dvd (Size.raw_dvd hH hint)]
+    have f2 : assert true = .ok () := rfl
+    have f3 : assert (decide (calcSizeRaw H hint ≥ minSize H)) = .ok () :=
+      Size.assert_ok (decide_eq_true hge.2)
+    have f4 : calcSizeRaw H hint < Size.stepOf H → assert (is_power_of_two (calcSizeRaw H hint)) = .ok () :=
+      fun h => Size.assert_ok (Size.raw_lt_step hH h).is_power_of_two
+    have f5 : ¬ calcSizeRaw H hint < Size.stepOf H → rem (calcSizeRaw H hint) (Size.stepOf H) = .ok 0 := by
+      intro h
+      rw [Size.rem_ok (by omega), Nat.mod_eq_zero_of_dvd (Size.raw_ge_step hH (by omega))]
+    have f6 : sub (calcSizeRaw H hint) 16 = .ok (calcSizeRaw H hint - 16) := Size.sub_ok (by omega)
+    have f7 := align_size_eq up H hH (calcSizeRaw H hint - 16) (by omega)
+    unfold mkCfg at f7
+    by_cases hlt : Size.hOf H hint < Size.stepOf H
+    all_goals first
+      | simp only [hlt, decide_true, ↓reduceIte, e1 hlt, f1, f2, f3]
+      | simp only [hlt, decide_true, decide_false, Bool.false_eq_true, ↓reduceIte, e2 hlt, f1, f2, f3]
+    all_goals by_cases hs : calcSizeRaw H hint < Size.stepOf H
+    all_goals first
+      | simp only [hs, decide_true, ↓reduceIte, f4 hs]
+      | simp only [hs, decide_true, decide_false, Bool.false_eq_true, ↓reduceIte, f5 hs, f2]
+    all_goals
+      rcases Size.calcSize_cases hH up hint with ⟨h1, _⟩ | ⟨_, hc, hsa, he⟩ | ⟨_, hc, hsa, he⟩
+      · omega
+      · have : (up || decide (H.align ≤ MIN_CHUNK_ALIGN)) = true := by
+          rcases hc with hc | hc
+          · rw [hc]; rfl
+          · rw [Bool.or_eq_true]; right; exact decide_eq_true hc
+        rw [if_pos this]
+        simp only [f6, f7, hsa, he]
+        have h16 : 16 ∣ calcSizeRaw H hint - 16 := Nat.dvd_sub (Size.raw_16_dvd hH hint) (Nat.dvd_refl 16)
+        rw [Size.downAlign_eq_self h16]
+        have hne : ¬ (calcSizeRaw H hint - 16 = 0) := by omega
+        unfold nonZero
+        rw [if_neg hne]
+      · have : ¬ (up || decide (H.align ≤ MIN_CHUNK_ALIGN)) = true := by
+          rw [hc.1, Bool.false_or, decide_eq_true_eq]; unfold MIN_CHUNK_ALIGN; omega
+        rw [if_neg this, he]
+        have hne : ¬ (calcSizeRaw H hint = 0) := by omega
+        unfold nonZero
+        rw [if_neg hne]
+  · -- overflow: only possible in the `up_align` branch
+    have hlt : ¬ Size.hOf H hint < Size.stepOf H := by
+      intro hlt
+      have := Size.raw_le_step hH hlt
+      have := Size.step_le hH
+      rw [Size.two_pow_64] at hr
+      omega
+    have e2 : up_align (Size.hOf H hint) (Size.stepOf H) = .ok none := by
+      rw [Size.up_align_eq (Size.step_p2 hH) (Size.step_lt64 hH)]
+      have : upAlign (Size.hOf H hint) (Size.stepOf H) = calcSizeRaw H hint := by
+        rw [Size.calcSizeRaw_def, if_neg hlt]
+      rw [this, if_neg hr]
+    simp only [hlt, decide_false, Bool.false_eq_true, ↓reduceIte, e2]
+    rcases Size.calcSize_cases hH up hint with ⟨_, he⟩ | ⟨_, _⟩ | ⟨_, _⟩
+    · rw [he]
+    · omega
+    · omega
 
 theorem calc_hint_from_capacity_bytes_eq (up : Bool) (H : Layout) (hH : HeaderOK H) (bytes : Nat) (hb : bytes < 2^64) :
     calc_hint_from_capacity_bytes (mkCfg up H) bytes =
-      .ok (if hintFromBytes up H bytes < 2^64 then some (hintFromBytes up H bytes) else none) := by sorry
+      .ok (if hintFromBytes up H bytes < 2^64 then some (hintFromBytes up H bytes) else none) := by
+  have _ := hb
+  unfold calc_hint_from_capacity_bytes
+  delta mkCfg
+  cases up
+  · simp only [Size.oal_overhead, Size.checked_add_eq, MIN_CHUNK_ALIGN, bind, Except.bind, pure,
+      Except.pure, Bool.false_eq_true, ↓reduceIte]
+    have e : hintFromBytes false H bytes = upAlign (16 + bytes) H.align + H.size + 16 := rfl
+    rw [e]
+    by_cases h1 : 16 + bytes < 2 ^ 64
+    · simp only [h1, ↓reduceIte, Size.offset_add_layout_eq (Size.hdr_p2 hH) (Size.hdr_lt64 hH)]
+      by_cases h2 : upAlign (16 + bytes) H.align + H.size < 2 ^ 64
+      · simp only [h2, ↓reduceIte]
+        by_cases h3 : upAlign (16 + bytes) H.align + H.size + 16 < 2 ^ 64
+        · simp only [h3, ↓reduceIte]
+        · simp only [h3, ↓reduceIte]
+      · have h3 : ¬ upAlign (16 + bytes) H.align + H.size + 16 < 2 ^ 64 := by omega
+        simp only [h2, h3, ↓reduceIte]
+    · have := Size.le_upAlign (16 + bytes) (Size.hdr_p2 hH).pos
+      have h3 : ¬ upAlign (16 + bytes) H.align + H.size + 16 < 2 ^ 64 := by omega
+      simp only [h1, h3, ↓reduceIte]
+  · simp only [Size.oal_overhead, Size.oal_header hH, Size.checked_add_eq, MIN_CHUNK_ALIGN, bind, Except.bind,
+      pure, Except.pure, ↓reduceIte]
+    have e : hintFromBytes true H bytes = minSize H + bytes + 16 := rfl
+    rw [e]
+    by_cases h1 : minSize H + bytes < 2 ^ 64
+    · simp only [h1, ↓reduceIte]
+      by_cases h2 : minSize H + bytes + 16 < 2 ^ 64
+      · simp only [h2, ↓reduceIte]
+      · simp only [h2, ↓reduceIte]
+    · have h2 : ¬ minSize H + bytes + 16 < 2 ^ 64 := by omega
+      simp only [h1, h2, ↓reduceIte]
 
 theorem calc_hint_from_capacity_eq (up : Bool) (H : Layout) (hH : HeaderOK H) (L : Layout) (hL : L.Valid) :
     calc_hint_from_capacity (mkCfg up H) L =
-      .ok (if hintFromCapacity up H L < 2^64 then some (hintFromCapacity up H L) else none) := by sorry
+      .ok (if hintFromCapacity up H L < 2^64 then some (hintFromCapacity up H L) else none) := by
+  unfold calc_hint_from_capacity
+  have hlt : L.size + (L.align - H.align) < 2 ^ 64 := by
+    have := hL.2
+    unfold Rs.IMAX at this
+    rw [Size.two_pow_64]
+    have h63 : (2:Nat) ^ 63 = 9223372036854775808 := by decide
+    omega
+  have e : (mkCfg up H).chunk_header_layout = H := rfl
+  simp only [e, Rs.saturating_sub, Size.checked_add_some hlt]
+  rw [calc_hint_from_capacity_bytes_eq up H hH _ hlt]
+  rfl
 
 theorem calcSize_some {up : Bool} {H : Layout} (hH : HeaderOK H) {hint s : Nat}
     (h : calcSize up H hint = some s) :
-    16 ∣ s ∧ sizeAlign up H ∣ s ∧ H.size ≤ s ∧ hint ≤ s + 16 ∧ s < 2^64 := by sorry
+    16 ∣ s ∧ sizeAlign up H ∣ s ∧ H.size ≤ s ∧ hint ≤ s + 16 ∧ s < 2^64 := by
+  have hge := Size.raw_ge hH hint
+  have hmin := Size.minSize_eq hH
+  have hA16 := Size.hdr_ge hH
+  have h16 := Size.raw_16_dvd hH hint
+  rcases Size.calcSize_cases hH up hint with ⟨_, he⟩ | ⟨hr, _, hsa, he⟩ | ⟨hr, _, hsa, he⟩
+  · rw [he] at h; cases h
+  · rw [he] at h
+    obtain rfl : calcSizeRaw H hint - 16 = s := Option.some.inj h
+    have d : 16 ∣ calcSizeRaw H hint - 16 := Nat.dvd_sub h16 (Nat.dvd_refl 16)
+    exact ⟨d, by rw [hsa]; exact d, by omega, by omega, by omega⟩
+  · rw [he] at h
+    obtain rfl : calcSizeRaw H hint = s := Option.some.inj h
+    exact ⟨h16, by rw [hsa]; exact Size.raw_dvd hH hint, by omega, by omega, hr⟩
 
 theorem calcSize_none_iff (up : Bool) (H : Layout) (hint : Nat) :
-    calcSize up H hint = none ↔ 2^64 ≤ calcSizeRaw H hint := by sorry
+    calcSize up H hint = none ↔ 2^64 ≤ calcSizeRaw H hint := by
+  by_cases hr : calcSizeRaw H hint ≥ 2 ^ 64
+  · have : calcSize up H hint = none := by unfold calcSize; simp only [hr, ↓reduceIte]
+    exact ⟨fun _ => hr, fun _ => this⟩
+  · constructor
+    · intro h
+      unfold calcSize at h
+      simp only [hr, ↓reduceIte] at h
+      split at h <;> cases h
+    · intro h; exact absurd h hr
 
 theorem calcSizeRaw_ge (H : Layout) (hH : HeaderOK H) (hint : Nat) :
-    hint ≤ calcSizeRaw H hint ∧ minSize H ≤ calcSizeRaw H hint := by sorry
+    hint ≤ calcSizeRaw H hint ∧ minSize H ≤ calcSizeRaw H hint :=
+  Size.raw_ge hH hint
 
 theorem align_size_fits {up : Bool} {H : Layout} (hH : HeaderOK H) {hint s g : Nat}
     (h : calcSize up H hint = some s) (hg : s ≤ g) :
     s ≤ downAlign g (sizeAlign up H) ∧ downAlign g (sizeAlign up H) ≤ g ∧
-    16 ∣ downAlign g (sizeAlign up H) ∧ sizeAlign up H ∣ downAlign g (sizeAlign up H) := by sorry
+    16 ∣ downAlign g (sizeAlign up H) ∧ sizeAlign up H ∣ downAlign g (sizeAlign up H) := by
+  obtain ⟨_, hd, _⟩ := calcSize_some hH h
+  exact ⟨Size.le_downAlign_of_dvd (Size.sizeAlign_pos hH up) hd hg, Size.downAlign_le _ _,
+    Nat.dvd_trans (Size.sizeAlign_16_dvd hH up) (Size.downAlign_dvd _ _), Size.downAlign_dvd _ _⟩
 
 theorem calcSize_mono {up : Bool} {H : Layout} (hH : HeaderOK H) {h1 h2 s1 s2 : Nat} (hle : h1 ≤ h2)
-    (e1 : calcSize up H h1 = some s1) (e2 : calcSize up H h2 = some s2) : s1 ≤ s2 := by sorry
+    (e1 : calcSize up H h1 = some s1) (e2 : calcSize up H h2 = some s2) : s1 ≤ s2 := by
+  have hm := Size.raw_mono hH hle
+  rcases Size.calcSize_cases hH up h1 with ⟨_, he1⟩ | ⟨_, hc1, _, he1⟩ | ⟨_, hc1, _, he1⟩
+  · rw [he1] at e1; cases e1
+  · rcases Size.calcSize_cases hH up h2 with ⟨_, he2⟩ | ⟨_, _, _, he2⟩ | ⟨_, hc2, _, he2⟩
+    · rw [he2] at e2; cases e2
+    · rw [he1] at e1; rw [he2] at e2
+      have := Option.some.inj e1
+      have := Option.some.inj e2
+      omega
+    · exfalso
+      rcases hc1 with h | h
+      · rw [hc2.1] at h; cases h
+      · omega
+  · rcases Size.calcSize_cases hH up h2 with ⟨_, he2⟩ | ⟨_, hc2, _, he2⟩ | ⟨_, _, _, he2⟩
+    · rw [he2] at e2; cases e2
+    · exfalso
+      rcases hc2 with h | h
+      · rw [hc1.1] at h; cases h
+      · omega
+    · rw [he1] at e1; rw [he2] at e2
+      have := Option.some.inj e1
+      have := Option.some.inj e2
+      omega
 
 theorem grow_ge {up : Bool} {H : Layout} (hH : HeaderOK H) {prev req s : Nat}
-    (h : calcSize up H (Nat.max req (2 * prev)) = some s) : 2 * prev ≤ s + 16 := by sorry
+    (h : calcSize up H (Nat.max req (2 * prev)) = some s) : 2 * prev ≤ s + 16 := by
+  obtain ⟨_, _, _, hle, _⟩ := calcSize_some hH h
+  rw [Size.natmax] at hle
+  omega
 
 theorem fresh_fits_up {H : Layout} (hH : HeaderOK H) {L : Layout} (hL : L.Valid) {ma : Nat}
     (hma : ma = 1 ∨ ma = 2 ∨ ma = 4 ∨ ma = 8 ∨ ma = 16)
@@ -49,7 +243,32 @@ theorem fresh_fits_up {H : Layout} (hH : HeaderOK H) {L : Layout} (hL : L.Valid)
     let s' := downAlign g (sizeAlign true H)
     let r := freshRange true H p s'
     (∃ x, bumpUp r.1 r.2 L.size L.align ma = some x) ∧
-    (L.align ∣ L.size → ∃ x, prepareUp r.1 r.2 L.size L.align = some x) := by sorry
+    (L.align ∣ L.size → ∃ x, prepareUp r.1 r.2 L.size L.align = some x) := by
+  have _ := hma
+  intro s' r
+  have hr1 : r.1 = p + H.size := rfl
+  have hr2 : r.2 = p + s' := rfl
+  have hLp2 : Size.P2 L.align := by obtain ⟨⟨k, _, hk⟩, _⟩ := hL; exact ⟨k, hk⟩
+  -- the size leaves room for the header, the padding and the block
+  have hhc : hintFromCapacity true H L = minSize H + (L.size + (L.align - H.align)) + 16 := rfl
+  have hmin := Size.minSize_eq hH
+  obtain ⟨_, _, _, hle, _⟩ := calcSize_some hH hs
+  have hs' : s ≤ s' := (align_size_fits hH hs hg).1
+  -- the aligned start is at most `L.align - H.align` above the end of the header
+  have hptr : upAlign (p + H.size) L.align ≤ p + H.size + (L.align - H.align) :=
+    Size.upAlign_le_p2 (Size.hdr_p2 hH) hLp2 ((Nat.dvd_add_right hp).2 hH.dvd)
+  have hfit : upAlign (p + H.size) L.align + L.size ≤ p + s' := by omega
+  rw [hr1, hr2]
+  constructor
+  · unfold bumpUp
+    simp only []
+    rw [if_pos hfit]
+    exact ⟨_, rfl⟩
+  · intro _
+    unfold prepareUp
+    simp only []
+    rw [if_pos hfit]
+    exact ⟨_, rfl⟩
 
 theorem fresh_fits_down {H : Layout} (hH : HeaderOK H) {L : Layout} (hL : L.Valid) {ma : Nat}
     (hma : ma = 1 ∨ ma = 2 ∨ ma = 4 ∨ ma = 8 ∨ ma = 16)
@@ -58,6 +277,56 @@ theorem fresh_fits_down {H : Layout} (hH : HeaderOK H) {L : Layout} (hL : L.Vali
     let s' := downAlign g (sizeAlign false H)
     let r := freshRange false H p s'
     (∃ x, bumpDown r.1 r.2 L.size L.align ma = some x) ∧
-    (L.align ∣ L.size → ∃ x, prepareDown r.1 r.2 L.size L.align = some x) := by sorry
+    (L.align ∣ L.size → ∃ x, prepareDown r.1 r.2 L.size L.align = some x) := by
+  intro s' r
+  have hr1 : r.1 = p := rfl
+  have hr2 : r.2 = p + s' - H.size := rfl
+  have hLp2 : Size.P2 L.align := by obtain ⟨⟨k, _, hk⟩, _⟩ := hL; exact ⟨k, hk⟩
+  have hmap2 : Size.P2 ma := by
+    rcases hma with h | h | h | h | h <;> rw [h]
+    · exact ⟨0, rfl⟩
+    · exact ⟨1, rfl⟩
+    · exact ⟨2, rfl⟩
+    · exact ⟨3, rfl⟩
+    · exact ⟨4, rfl⟩
+  have hA16 := Size.hdr_ge hH
+  have hApos := (Size.hdr_p2 hH).pos
+  -- the size leaves room for 16 spare bytes, the header, the padding and the block
+  have hhc : hintFromCapacity false H L =
+      upAlign (16 + (L.size + (L.align - H.align))) H.align + H.size + 16 := rfl
+  have hup := Size.le_upAlign (16 + (L.size + (L.align - H.align))) hApos
+  have hs' : s ≤ s' := (align_size_fits hH hs hg).1
+  have hroom : 16 + L.size + (L.align - H.align) + H.size ≤ s := by
+    have hge := Size.raw_ge hH hint
+    rcases Size.calcSize_cases hH false hint with ⟨_, he⟩ | ⟨_, _, _, he⟩ | ⟨_, _, _, he⟩
+    · rw [he] at hs; cases hs
+    · rw [he] at hs; have := Option.some.inj hs; omega
+    · rw [he] at hs; have := Option.some.inj hs; omega
+  rw [hr1, hr2]
+  constructor
+  · -- a multiple of `max L.align ma` within `L.align - H.align` above `p`
+    have hM := Size.P2.max hLp2 hmap2
+    have hq := Size.upAlign_le_p2 (Size.hdr_p2 hH) hM hp
+    have hMle : Nat.max L.align ma - H.align ≤ L.align - H.align := by
+      rw [Size.natmax]
+      rcases hma with h | h | h | h | h <;> omega
+    have hle : p ≤ downAlign (p + s' - H.size - L.size) (Nat.max L.align ma) :=
+      Nat.le_trans (Size.le_upAlign p hM.pos)
+        (Size.le_downAlign_of_dvd hM.pos (Size.upAlign_dvd _ _) (by omega))
+    unfold bumpDown
+    rw [if_pos (by omega)]
+    simp only []
+    rw [if_pos hle]
+    exact ⟨_, rfl⟩
+  · intro hdvd
+    have hq := Size.upAlign_le_p2 (Size.hdr_p2 hH) hLp2 hp
+    have hq2 := Size.le_upAlign p hLp2.pos
+    have hle : p + L.size ≤ downAlign (p + s' - H.size) L.align :=
+      Nat.le_trans (by omega : p + L.size ≤ upAlign p L.align + L.size)
+        (Size.le_downAlign_of_dvd hLp2.pos ((Nat.dvd_add_right (Size.upAlign_dvd _ _)).2 hdvd) (by omega))
+    unfold prepareDown
+    simp only []
+    rw [if_pos hle]
+    exact ⟨_, rfl⟩
 
 end Lemmas
